@@ -725,6 +725,14 @@ def run(rep: C.Report, tier: str) -> int:
         if os.environ.get("VERIF_TIMING"):
             print(f"[C04 timing] {name}: {timing[name]}s", file=sys.stderr)
     big = tier == "thorough"
+    # one violation per key (the first, i.e. the shortest / earliest witness); repeats are counted
+    raw_violation, seen_keys = rep.violation, {}
+
+    def violation_once(key, what, replay, found_input):
+        seen_keys[key] = seen_keys.get(key, 0) + 1
+        if seen_keys[key] == 1:
+            raw_violation(key, what, replay, found_input)
+    rep.violation = violation_once
     C.clean_gen(PROP)
     C.prove_and_audit(rep, PROP, THEOREMS)
     files, meta = [], []        # meta[i] = (group, list of case keys)
@@ -818,12 +826,12 @@ def run(rep: C.Report, tier: str) -> int:
                                           C.cq(out["im"][j]), C.cnat(case["steps"]), C.cq(out["t0"][j]),
                                           C.cq(out["r0"][j]), C.cq(out["t"][j]), C.cq(out["r"][j])]) + ")")
             lidx.append(k)
-    for i in range(0, len(lrows), 350):
+    for i in range(0, len(lrows), 250):
         body = ("Definition cases : list (Q * Q * Q * Q * nat * Q * Q * Q * Q) :=\n "
-                + C.clist(lrows[i:i + 350], ";\n ") + ".")
-        files.append(C.write_case_file(PROP, f"leapfrog_{i // 350}", HEADER, body,
+                + C.clist(lrows[i:i + 250], ";\n ") + ".")
+        files.append(C.write_case_file(PROP, f"leapfrog_{i // 250}", HEADER, body,
                                        ["failing check_leapfrog cases 0"]))
-        meta.append(("leap", lidx[i:i + 350]))
+        meta.append(("leap", lidx[i:i + 250]))
 
     lap('leapfrog-impl')
     # ---- D. selector: every call order up to length 5 on real Parameter objects
@@ -881,9 +889,10 @@ def run(rep: C.Report, tier: str) -> int:
                 f"Definition first_op : op := {coq_op(first)}.")
         files.append(C.write_case_file(
             PROP, f"selector_{fi}", HEADER, body,
-            [f"failing_codes propose table xof (enum step AL {DEPTH - 1} (step init first_op)) codes 0",
-             f"failing_codes propose_pinned table xof (enum step_pinned AL {DEPTH - 1} "
-             f"(step_pinned init first_op)) codes 0"]))
+            # (truncated: indices are unary nat, a long list of them is slow to read back)
+            [f"firstn 40 (failing_codes propose table xof (enum step AL {DEPTH - 1} (step init first_op)) codes 0)",
+             f"firstn 1 (failing_codes propose_pinned table xof (enum step_pinned AL {DEPTH - 1} "
+             f"(step_pinned init first_op)) codes 0)"]))
         meta.append(("selector", [ops for ops, _ in acc]))
     rep.evaluations += sel_nodes
     rep.coverage["selector_call_orders_enumerated"] = sel_nodes
@@ -918,8 +927,8 @@ def run(rep: C.Report, tier: str) -> int:
     for i in range(0, len(crow), 1500):
         body = "Definition cases : list (list op * obs) :=\n " + C.clist(crow[i:i + 1500], ";\n ") + "."
         files.append(C.write_case_file(PROP, f"chain_selector_{i // 1500}", HEADER, body,
-                                       ["failing (check_seq step propose) cases 0",
-                                        "failing (check_seq step_pinned propose_pinned) cases 0"]))
+                                       ["firstn 40 (failing (check_seq step propose) cases 0)",
+                                        "firstn 1 (failing (check_seq step_pinned propose_pinned) cases 0)"]))
         meta.append(("chain_selector", cops[i:i + 1500]))
     rep.coverage["chain_selector_sequences"] = len(cops)
     rep.coverage["chain_selector_posterior_evaluations_checked_R"] = chain_evals
@@ -975,7 +984,7 @@ def run(rep: C.Report, tier: str) -> int:
             bad, info = oracle_selector(ops)
             rep.violation(K_SELECTOR, f"after {pretty(ops)}: {bad[0]}{note}",
                           {"case": {"kind": "selector", "ops": ops_json(ops), **info},
-                           "disagreeing_call_orders": len(sel_fail)}, True)
+                           "disagreeing_call_orders_at_least": len(sel_fail)}, True)
         elif hist_bad:
             ops, bad = sorted(hist_bad, key=lambda t: len(t[0]))[0]
             rep.violation(K_SELECTOR, f"after {pretty(ops)} on a GibbsChain: {bad[0]}{note}",
@@ -1022,6 +1031,7 @@ def run(rep: C.Report, tier: str) -> int:
                       "on a non-dyadic input", {"case": rb[0]}, True)
 
     lap('runtime-R')
+    rep.coverage['violations_per_key'] = dict(seen_keys)
     rep.coverage['timing_s'] = timing
     rep.assumptions = [
         "exact comparisons use dyadic inputs on which every + - * // % of the code is exact in double precision",
